@@ -24,6 +24,8 @@ CLAIMED = {
              note="devices bar0, bar2 (unpinned unbiased terminals), holed, tee3; gamma symbolic without screening / enumerated with screening; LU contract with zero-rhs clause; exact reals (ulp-level noise amplification on fine meshes is outside the claim)", ref="5/C17"),
  "C16": dict(text="The real Parameter/CompositeParameter classes are executed on every expression tree within the bound (5 operators, leaves 2-D / 3-D / time-dependent parameter, int, float, both operand orders) with uninterpreted leaf functions and symbolic points and time; value = op(values of the operands) at scalar and array arguments (independent recursive oracle), time dependence = OR of operands, structural equality, cache clearing empties every cache, pickle round trip preserves equality, time dependence and values.",
              note="depth <= 2 (quick) / sampled depth 3 (thorough), inductive per node; ** with symbolic exponent uninterpreted; sha1 cache key modelled by term identity; trees that are identically zero in a divisor are excluded; mixed 2-D/3-D leaves are not evaluated (no common signature)", ref="5/C16"),
+ "C15": dict(text="The real TDGLSolver.solve / DataHandler / Runner / Solution assembly run on an in-memory file system with symbolic step sizes and stop times and a forked crash step, crash site (update / frame writer), exception kind, pause answer, explicit path vs. temp dir and set of pre-existing files: afterwards all handles are closed, no .tmp file or temp dir remains, pre-existing files are untouched, the fresh serial name is chosen, the file holds exactly the written frames with intact bookkeeping, errors propagate, cancellation returns a solution (None when nothing was recorded) that points at the fresh file.  Counter-examples are replayed with the real h5py on real files.",
+             note="N <= 2 steps per stage (quick) / 5 (thorough); HDF5/FS model (exclusive create, handle tracking, mutation log); writer faults injected at entry of save_time_step only; KeyboardInterrupt while writing the final frame may escape (not demanded otherwise)", ref="5/C15"),
 }
 NA = {
 }
